@@ -50,11 +50,19 @@ def gen_valid(rng, nops):
             op = 2
         elif k < 0.87:
             op = 3
-        elif k < 0.94:
+        elif k < 0.90:
             op = 4
         else:
             op = 5
         ops.append((op, now))
+        if op in (0, 5) and rng.random() < 0.5:
+            # cache propagation orderings: propagate right after a pause / extension, then ask the group's cache
+            # around the two candidate expiry seconds (propagation time + 1800, pause start + 1800)
+            if op == 0:
+                now += rng.choice([0, 1, 600, 1799])
+                ops.append((5, now))
+            for dt in rng.sample([1, 1799, 1800, 1801, 2400, 2999, 3000, 3599, 3600], 3):
+                ops.append((6, now + dt))
         ops.append((3, now + 3600))   # horizon probe (pure query)
     return "0 0 0 0 0 %d %s" % (len(ops), " ".join(f"{o} {t}" for o, t in ops))
 
@@ -65,7 +73,7 @@ def gen_malformed(rng, nops):
                            rng.randrange(-10**6, 10**6), rng.randrange(0, 2**40)])
     st = [rng.choice([0, 1, 2, 3, 255, rng.randrange(256)]), rng.choice([0, 1, 2, 3, 4, 254, 255]),
           rng.choice([0, 1, 2, 3, 254, 255]), t(), t()]
-    ops = [(rng.randrange(0, 6), t()) for _ in range(nops)]
+    ops = [(rng.randrange(0, 7), t()) for _ in range(nops)]
     return "%s %d %s" % (" ".join(map(str, st)), len(ops), " ".join(f"{o} {x}" for o, x in ops))
 
 
@@ -89,7 +97,7 @@ def parse(case, impl):
     outs = []
     for seg in impl.split(" | "):
         f = seg.split()
-        outs.append((f[0], list(map(int, f[1:6]))))
+        outs.append((f[0], list(map(int, f[1:6])), list(map(int, f[6:9]))))
     return st, ops, outs
 
 
@@ -100,8 +108,8 @@ def nontrivial(suite, case, impl):
         st, ops, outs = parse(case, impl)
     except Exception:
         return False
-    ok = any(o == 0 and r == "OK" for (o, _), (r, _) in zip(ops, outs))
-    refused = any(o == 0 and r.startswith("E") for (o, _), (r, _) in zip(ops, outs))
+    ok = any(o == 0 and r == "OK" for (o, _), (r, _, _) in zip(ops, outs))
+    refused = any(o == 0 and r.startswith("E") for (o, _), (r, _, _) in zip(ops, outs))
     return ok and refused
 
 
@@ -118,7 +126,22 @@ def oracle(suite, case, impl):
     st, ops, outs = parse(case, impl)
     since = 0
     last_reset = st[4]
-    for (op, now), (r, st2) in zip(ops, outs):
+    propagated_after_last_change = False
+    for (op, now), (r, st2, cache) in zip(ops, outs):
+        if op in (0, 1, 2) and r == "OK" and st2 != st:
+            propagated_after_last_change = False
+        if op == 5:
+            propagated_after_last_change = True
+        if op == 6 and propagated_after_last_change and r in ("B0", "B1"):
+            # the group's cache was refreshed after the last change of the global state: the group must be
+            # paused exactly while the global pause is in force (C14: refused while in force, accepted on expiry)
+            in_force = (st[0] & 1) != 0 and now < st[3] + 1800
+            if in_force and r == "B1":
+                return {"key": "group-open-while-pause-in-force",
+                        "what": f"at {now} the refreshed group cache reports the pause expired although it runs until {st[3] + 1800}"}
+            if not in_force and r == "B0":
+                return {"key": "group-blocked-after-expiry",
+                        "what": f"at {now} the refreshed group cache still reports a pause that ended at {st[3] + 1800}"}
         if op == 0 and r == "OK":
             if until(st2, now) > until(st, now) + 1800:
                 return {"key": "extend>30min", "what": f"pause at {now} moved paused-until from {until(st, now)} to {until(st2, now)}"}
